@@ -56,8 +56,8 @@ def Pred.app : Pred → V → Bool
 /-- Cluster factories: how much of its cluster the factory reads (DESIGN C04). -/
 inductive Fac where
   | first            -- clusterStream.FindFirst().Get(ctx)
-  | sum              -- Reduce over the whole cluster
-  | firstk (j : Int) -- clusterStream.Limit(j).Collect(ctx), summed
+  | sum              -- Reduce over the whole cluster; reports the sum and lastItemOnPreviousCluster
+  | firstk (j : Int) -- clusterStream.Limit(j).Collect(ctx), summed; also reports lastItemOnPreviousCluster
   | none             -- reads nothing, returns the classifier
   | firstprev        -- first element together with lastItemOnPreviousCluster
   deriving DecidableEq, Repr
